@@ -579,7 +579,7 @@ pub enum Outcome {
 }
 
 /// Run one receiver-family case.
-pub fn run_case<T: CellT>(case: &Value) -> Outcome {
+pub fn run_case<T: CellT>(case: &Value, log: &mut Vec<Value>) -> Outcome {
     ledger::reset();
     canary::reset();
     fault::disarm();
@@ -592,6 +592,7 @@ pub fn run_case<T: CellT>(case: &Value) -> Outcome {
     let calls = case["calls"].as_array().unwrap();
     let mut fails: Vec<Fail> = Vec::new();
     let mut skipped = false;
+    let mut driver_res: Vec<Value> = Vec::new();
 
     // absolute offset / size of the receiver
     let mut off = (0usize, 0usize);
@@ -655,7 +656,7 @@ pub fn run_case<T: CellT>(case: &Value) -> Outcome {
                 })
                 .collect();
             let combos = if idx.is_empty() { vec![vec![]] } else { cartesian(&lists, 16) };
-            if idx.iter().any(|&v| is_big(v)) && x["res"]["k"] != "panic" {
+            if !x.is_null() && idx.iter().any(|&v| is_big(v)) && x["res"]["k"] != "panic" {
                 panic!("harness: Big argument in an accepted call: {call}");
             }
             for conc in &combos {
@@ -667,6 +668,11 @@ pub fn run_case<T: CellT>(case: &Value) -> Outcome {
                     }
                     Err(()) => res_panic(),
                 };
+                if x.is_null() {
+                    // driver mode: nothing is precomputed; the observation is logged and judged by AccessTrace.tla
+                    driver_res.push(got);
+                    continue;
+                }
                 if !res_matches::<T>(&x["res"], &got) {
                     fails.push(Fail::new(ci, "res", json!({"op": op, "args": a, "concrete": conc, "expected": x["res"], "observed": got})));
                 }
@@ -731,7 +737,14 @@ pub fn run_case<T: CellT>(case: &Value) -> Outcome {
     if !shape_ok || !extras_ok {
         fails.push(Fail::new(last, "root_shape", json!({"extras_ok": extras_ok, "shape_ok": shape_ok})));
     }
-    if T::HAS_VALUE && fails.is_empty() {
+    if !driver_res.is_empty() {
+        // one event per driver case (single call): root before, call, observed result, root after
+        let c0 = &calls[0];
+        log.push(json!({"ev": "acc", "nc": nc, "nr": nr, "ids": ids, "rkind": kind, "stack": case["stack"], "op": c0["op"], "a": c0["a"],
+                        "res": driver_res[0], "root_after": root_now, "shape_ok": shape_ok && extras_ok,
+                        "redzone_ok": !canary::damaged()}));
+    }
+    if T::HAS_VALUE && fails.is_empty() && driver_res.is_empty() {
         if let Some(lastcall) = calls.last() {
             let x = &lastcall["x"];
             let ok = if let Some(alts) = x.get("alts") {
